@@ -87,7 +87,7 @@ theorem C06_restart_independent (X : Ext) (rate format : Int) (L P : Ctx)
 def played (s : Ctx) : Ctx
   | .p_ord => cst 2 | .p_row => cst 17 | .p_frame => cst 3 | .p_master_vol => cst 30
   | .p_channel_mute => cst 1 | .p_inject_event_flag => cst 1 | .p_inject_event_note => cst 60
-  | .p_flow_jump => cst 5 | .p_loop_count => cst 2 | .s_mix => cst (-40) | .s_ticksize => cst 882
+  | .p_flow_jump => cst 5 | .p_loop_count => cst 2 | .s_mix => cst (-40) | .s_ticksize => cst 882 | .p_filter => cst 1
   | f => s f
 
 example : playerView (startPlayer exampleExt 44100 0 (load exampleExt dirty))
@@ -242,6 +242,12 @@ theorem C06_crc_partial_fill (poly : Nat) (g : Nat → Nat) (k : Nat) :
   by_cases h : i < k ∧ i < 256
   · simp only [h, and_self, if_true]
   · simp only [h, if_false]
+
+/-- the precomputed constant table of the repaired tree (extracted on every run) is exactly what the
+former run-time fill computed from `CRC32_POLY`: replacing the fill by the constant changed no value -/
+theorem C06_crc_table_const :
+    Xmp.Gen.Globals.crcTableConst = [] ∨
+    Xmp.Gen.Globals.crcTableConst = (List.range 256).map (crcEntry Xmp.Gen.Globals.crc32Poly) := by decide +kernel
 
 example : crcEntry Xmp.Gen.Globals.crc32Poly 1 = 0x04c11db7 ∧ crcEntry Xmp.Gen.Globals.crc32Poly 255 = 0xb1f740b4 := by decide
 
